@@ -70,11 +70,13 @@ func (m *Mux) NewEndpoint(matchFunc MatchFunc) *Endpoint {
 	// Set a maximum size of the buffer in bytes.
 	endpoint.buffer.SetLimitSize(maxBufferSize)
 
+	// Register the endpoint and hand it the packets that arrived before it
+	// existed in one critical section, otherwise a packet dispatched right
+	// after the registration overtakes the queued ones.
 	m.lock.Lock()
 	m.endpoints[endpoint] = matchFunc
+	m.handlePendingPackets(endpoint, matchFunc)
 	m.lock.Unlock()
-
-	go m.handlePendingPackets(endpoint, matchFunc)
 
 	return endpoint
 }
@@ -198,10 +200,9 @@ func (m *Mux) dispatch(buf []byte) error {
 	return err
 }
 
+// handlePendingPackets moves the queued packets matching matchFunc to endpoint.
+// The caller must hold m.lock.
 func (m *Mux) handlePendingPackets(endpoint *Endpoint, matchFunc MatchFunc) {
-	m.lock.Lock()
-	defer m.lock.Unlock()
-
 	pendingPackets := make([][]byte, 0, len(m.pendingPackets))
 	for _, buf := range m.pendingPackets {
 		if matchFunc(buf) {
